@@ -294,6 +294,9 @@ def check(an: Analysis) -> None:
         coro = c.args[0] if c.args else None  # type: ignore[union-attr]
         if not (isinstance(coro, ast.Call) and dotted(coro.func) == "self._function" and forwards_varargs(coro, va, kwa)):
             ob.fail(f, c, "the task does not run self._function(*args, **kwargs)")
+    from ..kinds import holds_the_decorated_function
+
+    holds_the_decorated_function(an, ob, "helpers.timeouted._AsyncTimeout")
     # the future, the task and the timer of a call live on the loop that is running *this* call - looked up per call, not kept on
     # the wrapper (which lives as long as the decorated function and may be called under another loop later)
     for n in g.nodes:
@@ -320,6 +323,12 @@ def check(an: Analysis) -> None:
             for kind, node, path in classify_handler(g, h.ast):  # type: ignore[arg-type]
                 if kind not in ("reraise", "reraise-same"):
                     ob.fail(f, h.ast, f"a handler around the await of the result future {kind}s: the caller does not get the future's own outcome", CFG.show_path(path))
+    from ..engine import borrow
+    from . import c18
+
+    # C18.7: mimic_function never overwrites what the wrapper object already holds (its own _function / _timeout): stacked wrappers
+    # would otherwise adopt each other's state and the inner function would run outside the deadline
+    borrow(an, c18.check, {"C18.7": "C16.7"})
 
 
 def _ancestors(n: ast.AST):
